@@ -145,14 +145,17 @@ func configs(thorough bool) []Config {
 		defaults := []string{"application/json", ""}
 		shapes := []shape{{"op", true}}
 		if thorough && len(set) <= 2 {
-			// lists of up to two entries: also a third API default, the list declared at the top level of
-			// the description, and an operation without body parameter
+			// lists of up to two entries: also a third API default and (for the first two defaults) the list
+			// declared at the top level of the description, and an operation without body parameter
 			defaults = append(defaults, "text/plain")
 			shapes = append(shapes, shape{"global", true}, shape{"op", false})
 		}
 		for _, d := range defaults {
 			for _, reg := range []string{"all", "sparse"} {
-				for _, sh := range shapes {
+				for si, sh := range shapes {
+					if si > 0 && d == "text/plain" {
+						continue
+					}
 					out = append(out, Config{Consumes: entries, Where: sh.where, Default: d, Reg: reg, BodyParam: sh.body})
 				}
 			}
@@ -225,7 +228,7 @@ func main() {
 	headers := append(validHeaders(thorough), specialHeaders()...)
 	modes := []string{"none", "cl0", "cl2", "chunked1", "chunked0", "unknownlen"}
 	if thorough {
-		modes = append(modes, "cl1", "chunked2", "unknown0", "cl5000")
+		modes = append(modes, "chunked2", "unknown0", "cl5000")
 	}
 	cfgs := configs(thorough)
 
@@ -246,7 +249,11 @@ func main() {
 
 	r.Set("axis_configs", len(cfgs))
 	r.Set("axis_headers", len(headers))
-	r.Set("axis_body_modes", modes)
+	md := map[string]string{}
+	for _, m := range modes {
+		md[m] = bodyModes[m].doc + " [carries a body: " + bodyModes[m].carries + "]"
+	}
+	r.Set("axis_body_modes", md)
 	r.Set("axis_methods", methods)
 	r.Set("axis_orders", []string{"asc", "desc (only when the effective list has 2+ entries)"})
 	r.Set("axis_entry_points", []string{"untyped: RoutesHandler -> BindAndValidate -> handler", "typed: RouteInfo -> BindValidRequest(binder) -> Respond"})
